@@ -23,5 +23,7 @@ CARRIED = {
     "C14": [("C03", "kinematics", None)],
     # the reaction-force curve of a homogeneous problem is recorded by CharacteristicCurve through Job.evaluate /
     # Step.generate (ramp subdivision, x0 hand-over): their E2 contracts live in C15
-    "C09": [("C15", "Job.evaluate", None), ("C15", "Step.generate", None)],
+    # ... and the boundary conditions of the uniaxial / biaxial / shear load cases (dof.symmetry and friends) are the
+    # C08 `loadcase` contract (grid stand-in excluded: bounded)
+    "C09": [("C15", "Job.evaluate", None), ("C15", "Step.generate", None), ("C08", "loadcase", None)],
 }
